@@ -648,5 +648,162 @@ impl ProtocolState {
     ensures *final(self) == *old(self), r is Err, final(_arg2).packet_events@ == old(_arg2).packet_events@,
 //@end
 }
+
+// =====================================================================================================
+// dequeue rules and the service-time contract (C08, C09, C10, C07)
+// =====================================================================================================
+
+// C09: a QoS1+ publish may not start while the server's Receive Maximum is reached
+pub open spec fn rm_blocked(s: ProtocolState, id: u64) -> bool {
+    s.current_settings matches Some(settings)
+        && s.pending_publish_operations@.len() >= settings.receive_maximum_from_server as nat
+        && s.operations@.contains_key(id) && is_qos1plus_publish(*s.operations@[id].packet)
+}
+
+pub open spec fn slow_start_blocked(s: ProtocolState) -> bool {
+    (s.ss_active() && s.slow_start_ack_count != 0)
+        && (s.pending_publish_operations@.len() != 0 || s.pending_non_publish_operations@.len() != 0)
+}
+
+// "a sendable queued operation" (C08), in the priority order of C10: high priority, then
+// retransmissions, then user operations in submission order; a blocked head is not overtaken.
+pub open spec fn next_sendable(s: ProtocolState, mode: ProtocolQueueServiceMode) -> Option<u64> {
+    if s.pending_write_completion { None }
+    else if s.high_priority_operation_queue@.len() > 0 { Some(s.high_priority_operation_queue@[0]) }
+    else if mode == ProtocolQueueServiceMode::HighPriorityOnly { None }
+    else if slow_start_blocked(s) { None }
+    else if s.resubmit_operation_queue@.len() > 0 {
+        if rm_blocked(s, s.resubmit_operation_queue@[0]) { None } else { Some(s.resubmit_operation_queue@[0]) }
+    }
+    else if s.user_operation_queue@.len() > 0 {
+        if rm_blocked(s, s.user_operation_queue@[0]) { None } else { Some(s.user_operation_queue@[0]) }
+    }
+    else { None }
+}
+
+pub open spec fn opt_instant_min(a: Option<Instant>, b: Option<Instant>) -> Option<Instant> {
+    match (a, b) {
+        (Some(x), Some(y)) => if x.nanos < y.nanos { Some(x) } else { Some(y) },
+        (Some(x), None) => Some(x),
+        (None, y) => y,
+    }
+}
+
+pub open spec fn opt_le(a: Option<Instant>, b: Instant) -> bool { a matches Some(x) && x.nanos <= b.nanos }
+
+//@fn gneiss-mqtt/src/protocol.rs fold_timepoint props=C08
+    ensures r == opt_instant_min(*base, Some(*new)),
+//@end
+
+//@fn gneiss-mqtt/src/protocol.rs fold_optional_timepoint_min props=C08
+    ensures r == opt_instant_min(*base, *new),
+//@end
+
+// ---- ack-timeout records: the real Ord/PartialOrd impls, verified against "ordered by deadline"
+impl OrdSpecImpl for OperationTimeoutRecord {
+    open spec fn obeys_cmp_spec() -> bool { true }
+    open spec fn cmp_spec(&self, other: &OperationTimeoutRecord) -> Ordering {
+        if self.timeout.nanos < other.timeout.nanos { Ordering::Less } else if self.timeout.nanos == other.timeout.nanos { Ordering::Equal } else { Ordering::Greater }
+    }
+}
+impl PartialOrdSpecImpl for OperationTimeoutRecord {
+    open spec fn obeys_partial_cmp_spec() -> bool { true }
+    open spec fn partial_cmp_spec(&self, other: &OperationTimeoutRecord) -> Option<Ordering> {
+        Some(if self.timeout.nanos < other.timeout.nanos { Ordering::Less } else if self.timeout.nanos == other.timeout.nanos { Ordering::Equal } else { Ordering::Greater })
+    }
+}
+impl Ord for OperationTimeoutRecord {
+//@fn gneiss-mqtt/src/protocol.rs cmp props=C18 impl={Ord for OperationTimeoutRecord}
+//@end
+}
+impl PartialOrd for OperationTimeoutRecord {
+//@fn gneiss-mqtt/src/protocol.rs partial_cmp props=C18 impl={PartialOrd for OperationTimeoutRecord}
+//@end
+}
+
+pub open spec fn earliest_ack_deadline(s: ProtocolState, t: Option<Instant>) -> bool {
+    match t {
+        Some(d) => (exists|x: Reverse<OperationTimeoutRecord>| heap_view(s.operation_ack_timeouts).count(x) > 0 && x.0.timeout == d)
+            && (forall|y: Reverse<OperationTimeoutRecord>| heap_view(s.operation_ack_timeouts).count(y) > 0 ==> d.nanos <= (#[trigger] y.0).timeout.nanos),
+        None => heap_view(s.operation_ack_timeouts) == Multiset::<Reverse<OperationTimeoutRecord>>::empty(),
+    }
+}
+
+impl ProtocolState {
+//@fn gneiss-mqtt/src/protocol.rs ProtocolState::does_operation_pass_receive_maximum_flow_control props=C09
+    ensures r == !rm_blocked(*self, id),
+//@end
+
+//@fn gneiss-mqtt/src/protocol.rs ProtocolState::dequeue_operation props=C08,C09,C10,C07
+    ensures
+        r == next_sendable(*old(self), mode),
+        // exactly the head of the queue it came from is consumed; nothing else moves
+        ({
+            let pre = *old(self);
+            let post = *final(self);
+            &&& r is None ==> post == pre
+            &&& r is Some && pre.high_priority_operation_queue@.len() > 0 ==>
+                    post.high_priority_operation_queue@ == pre.high_priority_operation_queue@.subrange(1, pre.high_priority_operation_queue@.len() as int)
+                    && post == (ProtocolState { high_priority_operation_queue: post.high_priority_operation_queue, ..pre })
+            &&& r is Some && pre.high_priority_operation_queue@.len() == 0 && pre.resubmit_operation_queue@.len() > 0 ==>
+                    post.resubmit_operation_queue@ == pre.resubmit_operation_queue@.subrange(1, pre.resubmit_operation_queue@.len() as int)
+                    && post == (ProtocolState { resubmit_operation_queue: post.resubmit_operation_queue, ..pre })
+            &&& r is Some && pre.high_priority_operation_queue@.len() == 0 && pre.resubmit_operation_queue@.len() == 0 ==>
+                    post.user_operation_queue@ == pre.user_operation_queue@.subrange(1, pre.user_operation_queue@.len() as int)
+                    && post == (ProtocolState { user_operation_queue: post.user_operation_queue, ..pre })
+        }),
+        // C07: before CONNACK only the high-priority queue is served
+        mode == ProtocolQueueServiceMode::HighPriorityOnly && r is Some ==> old(self).high_priority_operation_queue@.len() > 0 && r == Some(old(self).high_priority_operation_queue@[0]),
+        // C09: a QoS1+ publish leaves the resubmit/user queue only below the server's Receive Maximum
+        (r matches Some(id) && old(self).high_priority_operation_queue@.len() == 0 && old(self).operations@.contains_key(id) && is_qos1plus_publish(*old(self).operations@[id].packet)
+            && old(self).current_settings is Some)
+            ==> old(self).pending_publish_operations@.len() < old(self).current_settings->Some_0.receive_maximum_from_server,
+        // C09: while the one-at-a-time throttle is live and an ack is outstanding nothing but high priority is served
+        (r is Some && slow_start_blocked(*old(self))) ==> old(self).high_priority_operation_queue@.len() > 0,
+//@end
+
+//@fn gneiss-mqtt/src/protocol.rs ProtocolState::get_next_service_timepoint_protocol_queue props=C08
+    ensures
+        // no lost wake-up and no idle spinning for the queues: "service me now" <=> a dequeue would succeed
+        r == (if next_sendable(*self, mode) is Some { Some(self.current_time) } else { None }),
+//@end
+
+//@fn gneiss-mqtt/src/protocol.rs ProtocolState::get_next_service_timepoint_disconnected props=C08
+    ensures r is None,
+//@end
+
+//@fn gneiss-mqtt/src/protocol.rs ProtocolState::get_next_service_timepoint_pending_connack props=C08,C07
+    requires self.connack_timeout_timepoint is Some,
+    ensures r is Some,
+        opt_le(r, self.connack_timeout_timepoint->Some_0),         // the establishment deadline is never slept through
+        next_sendable(*self, ProtocolQueueServiceMode::HighPriorityOnly) is Some ==> opt_le(r, self.current_time),
+        r == opt_instant_min(if next_sendable(*self, ProtocolQueueServiceMode::HighPriorityOnly) is Some { Some(self.current_time) } else { None }, self.connack_timeout_timepoint),
+//@end
+
+//@fn gneiss-mqtt/src/protocol.rs ProtocolState::get_next_service_timepoint_connected props=C08,C14,C18
+    ensures
+        self.ping_timeout_timepoint matches Some(t) ==> opt_le(r, t),
+        forall|x: Reverse<OperationTimeoutRecord>| #[trigger] heap_view(self.operation_ack_timeouts).count(x) > 0 ==> opt_le(r, x.0.timeout),
+        !self.pending_write_completion ==> (self.next_ping_timepoint matches Some(t) ==> opt_le(r, t)),
+        next_sendable(*self, ProtocolQueueServiceMode::All) is Some ==> opt_le(r, self.current_time),
+        // nothing due => no wake-up
+        (self.ping_timeout_timepoint is None && heap_view(self.operation_ack_timeouts) == Multiset::<Reverse<OperationTimeoutRecord>>::empty()
+            && (self.pending_write_completion || (self.next_ping_timepoint is None && next_sendable(*self, ProtocolQueueServiceMode::All) is None))) ==> r is None,
+        // never earlier than something that is actually due
+        r matches Some(t) ==> (self.ping_timeout_timepoint == Some(t) || (!self.pending_write_completion && self.next_ping_timepoint == Some(t))
+            || (!self.pending_write_completion && t == self.current_time && next_sendable(*self, ProtocolQueueServiceMode::All) is Some)
+            || (exists|x: Reverse<OperationTimeoutRecord>| heap_view(self.operation_ack_timeouts).count(x) > 0 && x.0.timeout == t)),
+//@@at bodystart
+        broadcast use ax_ord_rel_reverse, ax_ord_rel_spec;
+//@end
+
+//@fn gneiss-mqtt/src/protocol.rs ProtocolState::get_next_service_timepoint_pending_disconnect props=C08,C18
+    ensures
+        forall|x: Reverse<OperationTimeoutRecord>| #[trigger] heap_view(self.operation_ack_timeouts).count(x) > 0 ==> opt_le(r, x.0.timeout),
+        next_sendable(*self, ProtocolQueueServiceMode::HighPriorityOnly) is Some ==> opt_le(r, self.current_time),
+//@@at bodystart
+        broadcast use ax_ord_rel_reverse, ax_ord_rel_spec;
+//@end
+}
 } // verus!
 fn main() {}
